@@ -161,6 +161,14 @@ Theorem gen_is_model :
 Proof. exact gen_is_model_l. Qed.
 Print Assumptions gen_is_model.
 
+(* REGENERATED: the body of TimeDeltaArray.__neg__ read from the source negates both parts of every duration
+   (NegAbsent = no such method, ndarray.__neg__ is inherited: quirk c03_neg_keeps_jds) *)
+Theorem gen_neg_is_model :
+  gen_neg = NegAbsent \/
+  exists oc, gen_neg = NegBody oc /\ forall d, oequiv (run_unary oc d) (Some (neg d)).
+Proof. exact gen_neg_is_model_l. Qed.
+Print Assumptions gen_neg_is_model.
+
 Theorem gen_laws_if_clean :
   gen_quirks = Some all_off ->
   forall t d, okind t = KTime -> okind d = KDelta -> oscale t = oscale d ->
